@@ -92,7 +92,9 @@ class C01(Cfg):
                   "Each deviation found is a switch with a decide-checked witness: the nested sub-entity under an unchanged parent (#1), the departing room looked up "
                   "with the destination id (#2), the source row re-signed by a reference deletion that removes nothing (#3a), the unguarded reference deletion on sys.Room (#32) "
                   "- all FIXED in /repo since (c887d69, cfb7678, 456214b, f1df104; replays kept as regression cases) - and, still open: the right of a reference deletion judged "
-                  "on the reference's author (#3b), incoming references removed with a deleted row; the guarded statement is proved for any switch values. Room mutations: the caller of an accepted room mutation is admin in the resulting room or only "
+                  "on the reference's author (#3b), incoming references removed with a deleted row; the guarded statement is proved for any switch values. Mutation trees of ANY depth (structural recursion on the tree: "
+                  "flatten; rooms inherited from the nearest ancestor naming one; C01_rows / C01_references / C01_partial for every tree; the guard of C01_partial is 'no changed row below an unchanged one'); "
+                  "C01_partial_delete_node gives the exact footprint of a node deletion for any switch values. Room mutations: the caller of an accepted room mutation is admin in the resulting room or only "
                   "adds users to groups it administers; the run's oracle judges every accepted room update on the definition BEFORE it (admins, rights, user admins, new groups "
                   "need a room admin at the op's date; a group's users a room admin or that group's user admin) and the generator makes user admins that are not room admins try each of these. The model is tied to /repo by running both on generated operation sequences and comparing verdict and the full "
                   "content of _node, _edge and both deletion logs after every operation.")
